@@ -9,6 +9,8 @@ From AQ Require Import gen.C05Tls gen.TlsDispatch model.TlsParse model.TlsRecv p
 From AQ Require Import lib.Base model.Frames gen.C05Tables model.ConnRecv proofs.FramesP proofs.ConnRecvP.
 From AQ Require Import model.ConnDgram proofs.ConnDgramP.
 From AQ Require proofs.CodecProofs.
+From AQ Require model.Builder model.ConnClose proofs.BuilderProofs proofs.ConnCloseP.
+From AQ Require model.Timers model.TimersSpec proofs.AfterCloseP.
 
 (* For ALL payload byte strings and every frame boundary reached through successfully handled frames
    (induction over the frame loop), in both model variants: an empty payload closes with
@@ -257,3 +259,41 @@ Theorem header_consumes : forall hcl bs h rest,
   Zlen rest + (if Header.h_type h =? Header.PT_RETRY then 16 else 1) <= Zlen bs.
 Proof. exact header_consumed. Qed.
 Print Assumptions header_consumes.
+
+(* ---------------------------------------------------------------------------------------------------
+   After a close.  (1) receive_datagram: the gate is part of receive_datagram_total above.
+   (2) datagrams_to_send's close branch, on C13's builder model (model/ConnClose.v): *)
+
+(* the tree AS IT IS (finding R1): a client whose Initial header carries the 1300-byte (or 1140-byte) token of a Retry
+   packet and that has decided to close: builder.start_packet (start_frame) raises QuicPacketBuilderStop, which nothing
+   catches in this branch -- it escapes datagrams_to_send(), _close_pending stays set, every later call raises again.
+   1130 bytes is the largest token for which the round works.  With docs/C05-fix-10.patch the round returns (nothing
+   to send in the Initial space). *)
+Theorem after_close_refuted :
+  ConnClose.close_send false (ConnCloseP.r1_cfg 1300) 0 ConnCloseP.r1_keys ConnCloseP.r1_ev = (Builder.OStop, []) /\
+  ConnClose.close_send false (ConnCloseP.r1_cfg 1140) 0 ConnCloseP.r1_keys ConnCloseP.r1_ev = (Builder.OStop, []) /\
+  ConnClose.close_send false (ConnCloseP.r1_cfg 1130) 0 ConnCloseP.r1_keys ConnCloseP.r1_ev = (Builder.ODone, [1200]) /\
+  ConnClose.close_send true (ConnCloseP.r1_cfg 1300) 0 ConnCloseP.r1_keys ConnCloseP.r1_ev = (Builder.ODone, []) /\
+  ConnClose.close_send true (ConnCloseP.r1_cfg 1140) 0 ConnCloseP.r1_keys ConnCloseP.r1_ev = (Builder.ODone, []).
+Proof. exact ConnCloseP.close_send_refuted. Qed.
+Print Assumptions after_close_refuted.
+
+(* with the patch: for EVERY builder configuration of this branch (any max_datagram_size the CryptoPair can encrypt, any
+   connection-ID and token lengths), every key availability, every close event with varint-sized code / frame type:
+   the round -- start_packet, _write_connection_close_frame, _end_packet, flush -- returns normally: no
+   QuicPacketBuilderStop, BufferWriteError, AssertionError, ValueError or CryptoError *)
+Theorem after_close_send_total : forall c pn k ev,
+  BuilderProofs.wf_cfg c -> BuilderProofs.crypto_fits c ->
+  Builder.c_max_flight c = None -> Builder.c_max_total c = None -> ConnCloseP.ev_ok ev ->
+  fst (ConnClose.close_send true c pn k ev) = Builder.ODone.
+Proof. exact ConnCloseP.close_send_total. Qed.
+Print Assumptions after_close_send_total.
+
+(* (3) the API state machine (C09's model/Timers.v): in every state reached by a history that began with connect() /
+   a first datagram and is not TERMINATED -- so in every state after a close began -- receive_datagram,
+   datagrams_to_send, get_timer, handle_timer, next_event and close() return normally, and this holds along every
+   continuation of the history until termination *)
+Theorem after_close_total : forall client o ops more, TimersSpec.first_op client o ->
+  AfterCloseP.no_raise_until_terminated (snd (Timers.run (Timers.conn_init client) (o :: ops))) more.
+Proof. exact AfterCloseP.after_close_history. Qed.
+Print Assumptions after_close_total.
